@@ -49,25 +49,33 @@ type tornWrite struct {
 // beforeWrite is called with c.mu held right before a write is executed. It
 // returns a description when that write is going to be operation `target`.
 func (c *crashFS) beforeWrite(name string, off int64, p []byte, sequential bool) *tornWrite {
-	if c.probe || c.target <= 0 || c.n+1 != c.target || c.crashed.Load() || len(p) < 2 {
+	if c.probe || c.target <= 0 || c.n+1 != c.target || c.crashed.Load() {
+		return nil
+	}
+	if len(p) < 2 {
+		c.tornSkip = fmt.Sprintf("write-of-%d-bytes", len(p))
 		return nil
 	}
 	st, err := c.mem.Stat(name)
 	if err != nil || st.IsDir() {
+		c.tornSkip = "file-not-found-under-its-name"
 		return nil
 	}
 	t := &tornWrite{name: name, class: fileClass(name), off: off, buf: append([]byte(nil), p...), preLen: st.Size()}
 	if off > t.preLen {
-		return nil // a write past the end (zero fill): pebble does not issue those
+		c.tornSkip = "write-past-the-end" // zero fill: pebble does not issue those
+		return nil
 	}
 	if off < t.preLen {
 		f, err := c.mem.Open(name)
 		if err != nil {
+			c.tornSkip = "file-not-found-under-its-name"
 			return nil
 		}
 		defer f.Close()
 		t.old = make([]byte, min(t.preLen-off, int64(len(p))))
 		if n, err := f.ReadAt(t.old, off); n != len(t.old) || (err != nil && err != io.EOF) {
+			c.tornSkip = "old-bytes-unreadable"
 			return nil
 		}
 	}
@@ -370,7 +378,7 @@ func checkTornImages(r *lib.Run, h *history, res execResult, mk func(variant str
 	r.Count("torn_writes_on:"+t.class, 1)
 	r.Max("torn_max_write_bytes", n)
 	if t.preLen > t.off {
-		r.Count("torn_writes_overwriting_old_bytes(recycled log)", 1)
+		r.Count("torn_writes_overwriting_old_bytes(recycled-log)", 1)
 	}
 	if t.class == "wal" || t.class == "manifest" {
 		r.Count("torn_record_chunks_parsed:"+t.class, chunks)
@@ -406,9 +414,9 @@ func checkTornImages(r *lib.Run, h *history, res execResult, mk func(variant str
 	}
 	if beforeOK && afterFP != "" {
 		if beforeFP == afterFP {
-			r.Count("torn_writes_invisible(before = after)", 1)
+			r.Count("torn_writes_invisible(before=after)", 1)
 		} else {
-			r.Count("torn_writes_visible(before != after)", 1)
+			r.Count("torn_writes_visible(before!=after)", 1)
 		}
 	}
 	withMix := func(c tornCut) bool {
